@@ -48,7 +48,13 @@ class HDUL(PyObj):
 
     def getattr_(self, ctx, name):
         if name == 'writeto':
-            return Model(lambda c, f, **kw: self.written.append(f), 'HDUList.writeto')
+            def writeto(c, f, **kw):
+                # what a file written now would hold: the header cards present and the data array at this moment
+                h, d = self.hdu.fields.get('header'), self.hdu.fields.get('data')
+                snap = dict(h.present) if isinstance(h, SymDict) else None
+                vals = dict(h.vals) if isinstance(h, SymDict) else None
+                self.written.append((f, snap, vals, d, h))
+            return Model(writeto, 'HDUList.writeto')
         raise Undecided("HDUList." + name)
 
 
@@ -127,7 +133,8 @@ def t_roundtrip(ctx):
     ctx.assume(f >= 1)
     orig = dict(hdr.vals)
     orig_present = dict(hdr.present)
-    out = run_function(ctx, FILE, 'compress', [hl, f], globals_=g)
+    c_to_file = ctx.free_branch()
+    out = run_function(ctx, FILE, 'compress', [hl, f] + (['CMP.fits'] if c_to_file else []), globals_=g)
     if out.kind != 'return':
         ctx.oblige("safe", "compress.no_exception", False)
         return
@@ -137,6 +144,17 @@ def t_roundtrip(ctx):
         ctx.oblige("post", "compress.none_only_without_scale_cards", Not(And(have_scale1, have_scale2)))
         return
     ctx.oblige("post", "compress.returns_same_hdulist", out.value is hl)
+    if not c_to_file:
+        ctx.oblige("post", "compress.no_file_without_an_output_name", not hl.written)
+    else:
+        okf = len(hl.written) == 1 and hl.written[0][0] == 'CMP.fits' and hl.written[0][1] is not None
+        ctx.oblige("post", "compress.output_file_written_once", okf)
+        if okf:
+            _, snap, vals, d_at, h_at = hl.written[0]
+            fh = hl.hdu.fields['header']
+            ctx.oblige("post", "compress.output_file_holds_the_returned_data_and_header",
+                       d_at is hl.hdu.fields['data'] and h_at is fh and isinstance(fh, SymDict) and
+                       all(snap.get(k_) is fh.present.get(k_) and vals.get(k_) is fh.vals.get(k_) for k_ in set(fh.present) | set(snap)))
     ctx.cover("compress.returns")
     cdata = hl.hdu.fields['data']
     ch = hl.hdu.fields['header']
@@ -168,10 +186,26 @@ def t_roundtrip(ctx):
                    Implies(orig_present['CDELT2'], hv['CDELT2'] == orig['CDELT2'] * f),
                    Implies(And(Not(orig_present['CDELT2']), orig_present['CD2_2']), hv['CD2_2'] == orig['CD2_2'] * f)))
     # ---- expand what compress produced -------------------------------------------------------
-    out2 = run_function(ctx, FILE, 'expand', [hl], globals_=g)
+    to_file = ctx.free_branch()
+    n_written = len(hl.written)
+    out2 = run_function(ctx, FILE, 'expand', [hl] + (['OUT.fits'] if to_file else []), globals_=g)
     if out2.kind != 'return' or out2.value is None:
         ctx.oblige("post", "expand.succeeds_on_compressed_file", False)
         return
+    new_files = hl.written[n_written:]
+    if not to_file:
+        ctx.oblige("post", "expand.no_file_without_an_output_name", not new_files)
+    else:
+        okf = len(new_files) == 1 and new_files[0][0] == 'OUT.fits' and new_files[0][1] is not None
+        ctx.oblige("post", "expand.output_file_written_once", okf)
+        if okf:
+            _, snap, vals, d_at, h_at = new_files[0]
+            fh = hl.hdu.fields['header']
+            ctx.oblige("post", "expand.output_file_holds_the_returned_data_and_header",
+                       d_at is hl.hdu.fields['data'] and h_at is fh and
+                       all(snap.get(k_) is fh.present.get(k_) and vals.get(k_) is fh.vals.get(k_) for k_ in set(fh.present) | set(snap)))
+            ctx.oblige("post", "expand.output_file_has_no_compression_keywords",
+                       all(snap.get(key) is False for key in ('BN_CFAC', 'BN_NPX1', 'BN_NPX2', 'BN_RPX1', 'BN_RPX2')))
     ctx.cover("expand.returns")
     ctx.oblige("post", "expand.returns_same_hdulist", out2.value is hl)
     xdata = hl.hdu.fields['data']
